@@ -5,7 +5,7 @@ use chrono_english::{parse_date_string, Dialect};
 use regex::Regex;
 
 static DATE_REGEX: LazyLock<Regex> = LazyLock::new(|| {
-    Regex::new("(\\d{4})(-|:)(\\d{1,2})(-|:)(\\d{1,2}) ?(\\d{1,2})?:?(\\d{1,2})?:?(\\d{1,2})?").unwrap()
+    Regex::new("([0-9]{4})(-|:)([0-9]{1,2})(-|:)([0-9]{1,2}) ?([0-9]{1,2})?:?([0-9]{1,2})?:?([0-9]{1,2})?").unwrap()
 });
 
 /// chrono-english panics on some inputs (an out-of-range time such as `25:61` or `10.70`):
